@@ -433,8 +433,10 @@ def processStartFlow (s : State) (fid : Nat) (known act hasInst : Bool) (source 
       let isActivatedChild := fid == sf.flowId
       -- REPAIRED behaviour (fixes/C06-start-after-parent-ended.diff): a StartFlow whose sender has finished or
       -- failed in the meantime is dropped (unless it is the restart of an activated flow, whose sender is the
-      -- ended instance of the same flow).  The unpatched code goes on and creates an orphan instance.
-      if (sf.status == .stopped || sf.status == .finished) && !isActivatedChild then .ok (s, .ignored)
+      -- ended reference instance of the same flow — and then only while that instance is still activated).
+      -- The unpatched code goes on and creates an orphan instance.
+      let isRestart := isActivatedChild && act
+      if ((sf.status == .stopped || sf.status == .finished) && !isRestart) || (isRestart && sf.activated == 0) then .ok (s, .ignored)
       else
       match started with
       | some r =>
